@@ -384,6 +384,11 @@ def run(ctx) -> None:
     from .c11 import check_handlers_filter_quietly
 
     check_handlers_filter_quietly(ctx, "C02.R5")
+    # both graph-node executors hand the nested map the same inputs: the filter that leaves the inner graph's own bound
+    # objects out is decided by identity in both (a key test in one of them drops the caller's overriding value there)
+    from .c18 import check_nested_map_inputs
+
+    check_nested_map_inputs(ctx, "C02.R5")
     # constructed raises of the execute loops happen under the same guards in both siblings
     def raise_sigs(fs: list[FuncInfo]) -> dict[tuple, int]:
         out: dict[tuple, int] = {}
